@@ -200,7 +200,7 @@ func main() {
 	var harnessSummaries []map[string]interface{}
 
 	for _, hc := range cfg.Harnesses {
-		if *only != "" && hc.Func != *only {
+		if *only != "" && !inList(*only, hc.Func) {
 			continue
 		}
 		if len(hc.Tiers) > 0 && !contains(hc.Tiers, *tier) {
@@ -507,10 +507,23 @@ func matchKnown(k KnownFile, prop string, v sym.Violation) int {
 	return -1
 }
 
+func inList(list, name string) bool {
+	for _, x := range strings.Split(list, ",") {
+		if x == name {
+			return true
+		}
+	}
+	return false
+}
+
 // ---- native replay ----
 
 func writeReplay(verifDir, repoDir string, cfg CheckCfg, hc HarnessCfg, hs *sym.HarnessSpec, v sym.Violation, tag string) string {
-	dir := filepath.Join(verifDir, "replays", cfg.Property, hc.Func+"_"+tag)
+	base := filepath.Join(verifDir, "replays")
+	if d := os.Getenv("VERIF_REPLAY_DIR"); d != "" { // development runs against a scratch copy
+		base = d
+	}
+	dir := filepath.Join(base, cfg.Property, hc.Func+"_"+tag)
 	os.RemoveAll(dir)
 	os.MkdirAll(dir, 0o755)
 	tape := map[string]interface{}{"tape": v.Tape, "params": hs.Params, "sched": v.Sched}
